@@ -192,6 +192,7 @@ AAccumulateMixed(sl) ==
 \* pair-list recipes: sequence of [pk |-> pk recipe, m |-> msg recipe]
 HonestPairs(sg) == [i \in 1..Len(sg) |-> [pk |-> [k |-> sg[i].k, ops |-> <<>>], m |-> sg[i].m]]
 DenPairs(ps)    == [i \in 1..Len(ps) |-> [pk |-> DenPk(ps[i].pk), m |-> DenMsg(ps[i].m)]]
+InsertPair(s, p, e) == [i \in 1..(Len(s) + 1) |-> IF i < p THEN s[i] ELSE IF i = p THEN e ELSE s[i - 1]]
 RemoveAt(s, i)  == [j \in 1..(Len(s)-1) |-> IF j < i THEN s[j] ELSE s[j+1]]
 SwapMsgs(s, i, j) == [x \in 1..Len(s) |-> IF x = i THEN [s[i] EXCEPT !.m = s[j].m]
                                           ELSE IF x = j THEN [s[j] EXCEPT !.m = s[i].m] ELSE s[x]]
@@ -204,6 +205,9 @@ Perturbations(ps) ==
   \cup {[how |-> "altermsg", at |-> i, ps |-> [ps EXCEPT ![i].m = m]] : i \in 1..Len(ps), m \in MsgRs}
   \cup {[how |-> "alterkey", at |-> i, ps |-> [ps EXCEPT ![i].pk = [k |-> k, ops |-> <<>>]]] : i \in 1..Len(ps), k \in NZKeys}
   \cup {[how |-> "idkey", at |-> i, ps |-> [ps EXCEPT ![i].pk.ops = <<PkOp("Identity", 0, 0)>>]] : i \in 1..Len(ps)}
+  \* an identity key *added* to an otherwise complete list: the pairing product is unchanged (e(H, 0) = 1),
+  \* so only the per-entry guard can refuse it - at every position, the last one included
+  \cup {[how |-> "addid", at |-> p, ps |-> InsertPair(ps, p, [pk |-> [k |-> ps[1].pk.k, ops |-> <<PkOp("Identity", 0, 0)>>], m |-> m])] : p \in 1..(Len(ps) + 1), m \in MsgRs}
   \cup {[how |-> "drop", at |-> i, ps |-> RemoveAt(ps, i)] : i \in 1..Len(ps)}
   \cup {[how |-> "add", at |-> Len(ps) + 1, ps |-> Append(ps, [pk |-> [k |-> k, ops |-> <<>>], m |-> m])] : k \in NZKeys, m \in MsgRs}
   \cup {[how |-> "swapmsg", at |-> i, ps |-> SwapMsgs(ps, i, j)] : i \in 1..Len(ps), j \in 1..Len(ps)}
@@ -291,7 +295,7 @@ Exact ==
 NoIdentityAccepted ==
   /\ (Judged("Verify") \/ Judged("PopVerify") \/ Judged("MultiVerify")) =>
         ((last.idpk \/ last.idsig) => last.expect.res = "Err")
-  /\ Judged("AggVerify") => ((last.idsig \/ last.how = "idkey") => last.expect.res = "Err")
+  /\ Judged("AggVerify") => ((last.idsig \/ last.how \in {"idkey", "addid"}) => last.expect.res = "Err")
   /\ ((Judged("Sign") \/ Judged("PopProve")) /\ last.k = 0) => last.expect.res = "Err"
 
 \* C05: an artefact made under one scheme / purpose is never accepted under another
@@ -307,7 +311,7 @@ AggExact ==
     /\ (last.expect.res = "Ok") <=> last.ideal
     /\ (last.sameset /\ ~last.idsig /\ ~(last.scheme = "Basic" /\ last.dupmsg)) => last.expect.res = "Ok"
     /\ (last.scheme = "Basic" /\ last.dupmsg) => last.expect.res = "Err"
-    /\ (~last.sameset /\ last.how \in {"altermsg", "alterkey", "drop", "add", "idkey"}) => last.expect.res = "Err"
+    /\ (~last.sameset /\ last.how \in {"altermsg", "alterkey", "drop", "add", "idkey", "addid"}) => last.expect.res = "Err"
 AggRefusal ==
   Judged("Aggregate") =>
     ((last.expect.res = "Ok") <=> (Len(last.sigs) >= 2 /\ \A i \in 1..Len(last.sigs) : last.sigs[i].base.scheme = last.sigs[1].base.scheme))
